@@ -937,6 +937,11 @@ class Analysis:
                                 keep.add(Fact(">", f.l, f.r))
                             if w[0] == "dec" and f.op in ("<=", "<", "=="):
                                 keep.add(Fact("<", f.l, f.r))
+                            # the other side moves along by one
+                            # (only small non-negative lower bounds: the chain x >= c, c-1, .., 0 is finite, and the
+                            # fixpoint over a loop has no widening)
+                            if w[0] == "dec" and f.op in (">=", ">", "==") and 0 <= f.key[2] - 1 <= 64:
+                                keep.add(Fact(">=" if f.op == "==" else f.op, f.l, mkint(f.key[2] - 1)))
                     # relations between x and other quantities hold for the old value: x_old = x -/+ 1
                     if len(w[1]) == 1:
                         from . import lin as _lin
@@ -1065,6 +1070,16 @@ class Analysis:
                         # tested on the copy say nothing about the original
                         continue
                     new.add(Fact("==", lhs, rv))
+                    if AXIOM_BOUNDS and rv.get("k") in ("Mem", "Sub", "Ref") and lhs.get("k") == "Ref":
+                        # a copy of a field with a proven range: the copy has that range (and keeps it when the loop it
+                        # is walked in is merged)
+                        kx = pp(rv)
+                        for rx, lo_, hi_ in AXIOM_BOUNDS:
+                            if rx.match(kx):
+                                if lo_ is not None:
+                                    new.add(Fact(">=", lhs, mkint(lo_)))
+                                if hi_ is not None:
+                                    new.add(Fact("<=", lhs, mkint(hi_)))
                     if rv.get("k") == "Cond":
                         # `x = c ? a : b` on a path that has settled c (the CFG branches on c before the join)
                         tc = truth_in(frozenset(new), rv["a"][0])
@@ -1098,6 +1113,14 @@ class Analysis:
                             elif g.key[2] == f.key[0]:
                                 extra.append(Fact(f.op, g.l, f.r))
         facts = list(facts) + extra
+        for f in list(facts):
+            # x != c tightens a bound that touches c (x >= 0 and x != 0: x >= 1)
+            if f.kind == "cmp" and f.op == "!=" and isinstance(f.key[2], int) and isinstance(f.key[0], str):
+                lo, hi, _ = d_bounds(d, f.key[0])
+                if lo is not None and lo == f.key[2]:
+                    facts.append(Fact(">=", f.l, mkint(lo + 1)))
+                if hi is not None and hi == f.key[2]:
+                    facts.append(Fact("<=", f.l, mkint(hi - 1)))
         for f in facts:
             new.add(f)
             if self.E.hist_roots and f.kind == "cmp" and any(m[0][1] in self.E.hist_roots for m, _ in f.paths):
@@ -1173,7 +1196,7 @@ class Analysis:
         memo[hb.id] = []
         f = self.f
         c = sk(hb.term["cond"]) if hb.term and hb.term.get("cond") is not None else None
-        if c is None or c.get("k") != "Bin" or c["op"] not in ("<", "<="):
+        if c is None or c.get("k") != "Bin" or c["op"] not in ("<", "<=", "!="):
             return []
         v, lim = sk(c["a"][0]), cval(sk(c["a"][1]))
         from .sym import _conv_signed
@@ -1232,7 +1255,13 @@ class Analysis:
             c0 = last
         if c0 is None:
             return []
-        top = lim - 1 if c["op"] == "<" else lim
+        if c["op"] == "!=":
+            # `i != N` ends the loop only if i hits N exactly: N must be one of c0, c0 + g, ..
+            if lim < c0 or (lim - c0) % g != 0:
+                return []
+            top = lim - 1
+        else:
+            top = lim - 1 if c["op"] == "<" else lim
         if top < c0:
             return []
         mx = c0 + ((top - c0) // g) * g
